@@ -341,40 +341,86 @@ def run(repo, rep, tier):
                                     stmt=f"entries: {state}/{qlabel}")
 
     # ---------------- R2.5 Bag: every numeric key (component) is NaN-normalised before it indexes the value-to-weight map
-    r5 = rep.rule("R2.5", "Bag._update: numeric key components pass through the NaN-normalising converter (NaN is not equal to itself as a dict key)", floor=2)
-    bag = repo.cls("Bag")
-    upd = repo.lookup(bag, "_update")
-    if upd is None:
-        raise AnalysisError("Bag._update not found")
-    rep.analysed_functions.add(upd.construct)
+    r5 = rep.rule("R2.5", "Bag fill path: numeric key components pass through the NaN-normalising converter (NaN is not equal to itself as a dict key)", floor=2)
+    bag_key_normalisation(repo, rep, r5, "R2.5")
+
+
+def nan_normalisers(repo):
     um = repo.modules.get("histogrammar.util")
-    normalisers = set()
+    out = set()
     for fn in (um.functions.values() if um else []):
         has_isnan = any(isinstance(x, ast.Call) and ast.unparse(x.func) in ("math.isnan", "np.isnan", "numpy.isnan") for x in ast.walk(fn.node))
         ret_nan = any(isinstance(x, ast.Return) and isinstance(x.value, ast.Constant) and x.value.value == "nan" for x in ast.walk(fn.node))
         if has_isnan and ret_nan:
-            normalisers.add(fn.name)
-    if not normalisers:
+            out.add(fn.name)
+    if not out:
         raise AnalysisError("no NaN-normalising converter found in histogrammar.util (floatOrNan expected)")
-    keyvar = upd.params[1]
-    for n in walk_local_stmt(upd.node):
-        if isinstance(n, ast.Assign) and len(n.targets) == 1 and isinstance(n.targets[0], ast.Name) and n.targets[0].id == keyvar:
-            raw = []
+    return out
 
-            def scan(e, inside_norm):
-                if isinstance(e, ast.Call) and isinstance(e.func, ast.Name):
-                    if e.func.id in normalisers:
-                        inside_norm = True
-                    elif e.func.id in ("float", "int") and not inside_norm:
-                        raw.append(e)
-                for ch in ast.iter_child_nodes(e):
-                    scan(ch, inside_norm)
-            scan(n.value, False)
-            uses = any(isinstance(x, ast.Name) and x.id in normalisers for x in ast.walk(n.value))
-            ok = not raw and uses
-            r5.ob(ok, f"Bag._update: `{norm(n)[:70]}`")
-            if not ok:
-                rep.finding("R2.5", upd, n, f"`{norm(n)[:80]}` builds the key of the value-to-weight map without {sorted(normalisers)}: a NaN (component) "
-                            f"becomes a float NaN key, which is not equal to itself - every fill of the same NaN-containing value creates a new "
-                            f"entry instead of adding its weight to the existing one (and the JSON round trip drops duplicates)",
-                            stmt=f"bag key without NaN normalisation: {norm(n)[:50]}")
+
+def key_definitions(fn, slot="values"):
+    """The expressions that (transitively, through plain copies) define the key used in `self.<slot>[key]` in fn:
+    [(assign node, expression)] - decided by def-use, not by the names of the locals."""
+    sn = fn.params[0]
+    keys = set()
+    for n in walk_local_stmt(fn.node):
+        if isinstance(n, ast.Subscript) and isinstance(n.value, ast.Attribute) and n.value.attr == slot and isinstance(n.value.value, ast.Name) \
+                and n.value.value.id == sn and isinstance(n.slice, ast.Name):
+            keys.add(n.slice.id)
+    defs = []
+    seen = set()
+    work = list(keys)
+    while work:
+        k = work.pop()
+        if k in seen:
+            continue
+        seen.add(k)
+        for n in walk_local_stmt(fn.node):
+            if isinstance(n, ast.Assign) and any(isinstance(t, ast.Name) and t.id == k for t in n.targets):
+                defs.append((n, n.value))
+                for x in ast.walk(n.value):
+                    if isinstance(x, ast.Name) and x.id not in seen:
+                        work.append(x.id)
+    return keys, defs
+
+
+def bag_key_normalisation(repo, rep, r5, rule):
+    bag = repo.cls("Bag")
+    normalisers = nan_normalisers(repo)
+    fn = None
+    for cand in ("fill", "_update"):
+        f = repo.lookup(bag, cand)
+        if f is not None and key_definitions(f)[0]:
+            fn = f
+            break
+    if fn is None:
+        raise AnalysisError("Bag: no function that stores into self.values[key] found on the fill path")
+    rep.analysed_functions.add(fn.construct)
+    keys, defs = key_definitions(fn)
+    nconv = 0
+    for n, v in defs:
+        convs = [x for x in ast.walk(v) if isinstance(x, ast.Call) and isinstance(x.func, ast.Name) and x.func.id in normalisers | {"float", "int"}]
+        uses_norm_name = any(isinstance(x, ast.Name) and x.id in normalisers for x in ast.walk(v))
+        if not convs and not uses_norm_name:
+            continue
+        nconv += 1
+        raw = []
+
+        def scan(e, inside_norm):
+            if isinstance(e, ast.Call) and isinstance(e.func, ast.Name):
+                if e.func.id in normalisers:
+                    inside_norm = True
+                elif e.func.id in ("float", "int") and not inside_norm:
+                    raw.append(e)
+            for ch in ast.iter_child_nodes(e):
+                scan(ch, inside_norm)
+        scan(v, False)
+        ok = not raw
+        r5.ob(ok, f"{fn.qualname}: `{norm(n)[:70]}`")
+        if not ok:
+            rep.finding(rule, fn, n, f"`{norm(n)[:80]}` builds the key of the value-to-weight map without {sorted(normalisers)}: a NaN (component) "
+                        f"becomes a float NaN key, which is not equal to itself - every fill of the same NaN-containing value creates a new "
+                        f"entry instead of adding its weight to the existing one (and the JSON round trip drops duplicates)",
+                        stmt=f"bag key without NaN normalisation: {norm(n)[:50]}")
+    if nconv == 0:
+        raise AnalysisError(f"{fn.qualname}: no numeric conversion of the Bag key found (floatOrNan expected)")
